@@ -96,6 +96,17 @@ func (e *Enc) libModel(fr *Frame, full string, callee *ssa.Function, args []Val,
 		sa := fmt.Sprintf("(str_of_bytes (select %s (s_arr %s)) (s_off %s) (s_len %s))", e.get(cur.st, c), a.T, a.T, a.T)
 		sb := fmt.Sprintf("(str_of_bytes (select %s (s_arr %s)) (s_off %s) (s_len %s))", e.get(cur.st, c), b.T, b.T, b.T)
 		return Val{T: fmt.Sprintf("(and (= (s_len %s) (s_len %s)) (or (= (s_len %s) 0) (= %s %s)))", a.T, b.T, a.T, sa, sb), S: "Bool"}, true
+	case "fmt.Errorf", "errors.New":
+		v := e.freshVal("newerr", resType, cur)
+		e.assume(not(eq(v.T, "nilI")))
+		e.countCall(cur, full, args)
+		return v, true
+	case "(github.com/libp2p/go-libp2p/core/peer.ID).String":
+		e.hdrOnce("peerstr", `(declare-fun peer_str (Str) Str)
+(declare-fun peer_str_inv (Str) Str)
+(assert (forall ((x Str)) (! (= (peer_str_inv (peer_str x)) x) :pattern ((peer_str x)))))`)
+		e.note("peer.ID.String is a deterministic injective function of the peer ID")
+		return Val{T: "(peer_str " + args[0].T + ")", S: "Str"}, true
 	case "math/rand.Intn", "math/rand.Int63n", "math/rand.Int31n":
 		e.safety(fr, cur, "randn", pos, "(> "+args[0].T+" 0)", instr)
 		v := e.freshVal("rnd", types.Typ[types.Int], cur)
@@ -138,6 +149,9 @@ func (e *Enc) ifaceModel(fr *Frame, full string, recv Val, args []Val, resType t
 		return v, true
 	case "error.Error":
 		return e.freshVal("errstr", resType, cur), true
+	case "sync.Locker.Lock", "sync.Locker.Unlock":
+		e.note("sync.Locker.Lock/Unlock through the interface are not tied to a monitor (the callers pass the owning cache's mutex)")
+		return Val{T: "unit", S: "Unit"}, true
 	}
 	return Val{}, false
 }
@@ -192,9 +206,14 @@ func (e *Enc) protectedComps(m *Monitor) []*Comp {
 	for _, p := range m.Protects {
 		cur := t
 		elems := false
+		mapc := false
 		if strings.HasPrefix(p, "elems(") && strings.HasSuffix(p, ")") {
 			elems = true
 			p = p[6 : len(p)-1]
+		}
+		if strings.HasPrefix(p, "map(") && strings.HasSuffix(p, ")") {
+			mapc = true
+			p = p[4 : len(p)-1]
 		}
 		parts := strings.Split(p, ".")
 		for i, part := range parts {
@@ -205,7 +224,12 @@ func (e *Enc) protectedComps(m *Monitor) []*Comp {
 			for j := 0; j < u.NumFields(); j++ {
 				if u.Field(j).Name() == part {
 					if i == len(parts)-1 {
-						if elems {
+						if mapc {
+							if mt, ok := u.Field(j).Type().Underlying().(*types.Map); ok {
+								d, v, l := e.mapComps(mt)
+								out = append(out, d, v, l)
+							}
+						} else if elems {
 							if sl, ok := u.Field(j).Type().Underlying().(*types.Slice); ok {
 								out = append(out, e.sliceComp(sl.Elem()))
 							}
